@@ -43,6 +43,9 @@ def run(tier):
     # the same forests with the partial units in a dwz alt file (.gnu_debugaltlink): offsets of the two files collide
     for n in ((4, 5) if tier == "quick" else (4, 5, 6)):
         allv += D.gen_forests("altnav", n, wd)
+    # imported units that are ordinary compile units (DWARF 4, 3.1.2 allows both kinds)
+    for n in (4, 5):
+        allv += D.gen_forests("navcu", n, wd)
     # import chains of any depth: ten units deep (the model is exponential in the depth)
     allv += D.gen_forests("navchain", 20, wd, shards=1)
     badm = [v for v in allv if not v["ok"]["nav"]]
